@@ -28,11 +28,46 @@ ASSUMPTIONS = ['candidates or cut-off designs with a fragile discrete score entr
                'obligations are skipped when the admitted set itself is uncertain (a share/impact within 1e-9 of an admission bound)']
 
 
+@st.composite
+def _offsetting(draw, big):
+  """Flavour for the pruning clause: two non-excludable, treatment-eligible geos of equal size and opposite phase, so that
+  each alone has a large optimistic budget while the pair (a group sum with a much smaller spread) is cheap; the budget
+  range is drawn from the low quantiles. Singletons are then often not admissible treatment groups."""
+  spec = draw(G.search_spec(max_geos=big, min_geos=4, constraint_p=0.2, allow_share=False, elig_style='free'))
+  panel, params = spec['panel'], spec['params']
+  lv = draw(st.sampled_from([4, 8, 12, 20]))
+  panel['level'][0] = panel['level'][1] = lv
+  if draw(st.booleans()):
+    # opposite idiosyncratic noise: each alone is noisy (expensive), the pair follows the common factor closely
+    panel['sign'][0], panel['sign'][1] = 1, 1
+    panel['amp'][0] = panel['amp'][1] = draw(st.sampled_from([32, 128, 128]))
+    panel['noise'][1] = [-e for e in panel['noise'][0]]
+    for g in range(2, len(panel['ids'])):
+      panel['amp'][g] = min(panel['amp'][g], 8)
+  else:
+    panel['sign'][0], panel['sign'][1] = 1, -1
+    panel['amp'][0] = panel['amp'][1] = draw(st.sampled_from([0, 2, 8]))
+  panel['flat'] = []
+  rows = spec['elig']['rows']
+  by_id = {r[0]: r for r in rows}
+  kinds = draw(st.sampled_from([((0, 1, 0), (0, 1, 0)), ((0, 1, 0), (1, 1, 0)), ((1, 1, 0), (1, 1, 0)), ((0, 1, 0), (0, 1, 1))]))
+  for gid, k in zip(panel['ids'][:2], kinds):
+    if gid in by_id:
+      by_id[gid][1:] = list(k)
+  params['budget_q'] = [0.0, draw(st.floats(0.05, 0.9))]
+  params['share_q'] = None
+  params['n_geos_max'] = None
+  params['treatment_geos_range'] = draw(st.sampled_from([None, [2, 3], [2, 2], [1, 3]]))
+  spec['history'] = None
+  return spec
+
+
 def strategy(tier):
   big = 6 if tier == 'quick' else 7
   opts = [G.search_spec(max_geos=big, min_geos=2, constraint_p=0.45),
           G.search_spec(max_geos=big, min_geos=3, constraint_p=0.3, elig_style='none'),
-          G.search_spec(max_geos=big, min_geos=3, constraint_p=0.35, elig_style='mixed')]
+          G.search_spec(max_geos=big, min_geos=3, constraint_p=0.35, elig_style='mixed'),
+          _offsetting(min(big, 6))]
   if tier == 'thorough':
     opts.append(G.search_spec(max_geos=8, min_geos=8, constraint_p=0.3))
   return st.one_of(*opts)
